@@ -766,3 +766,27 @@ Definition constmul_getitem (c : tensor) (g : list item -> option tensor) (its :
 (* ZeroLinearOperator._getitem: ZeroLinearOperator( *_compute_getitem_size(self, indices)) *)
 Definition zero_getitem (shape : list nat) (its : list item) : option tensor :=
   option_map (fun sh => tab sh zero_f) (compute_getitem_size false shape its).
+
+(* LinearOperator._getitem (the default, inherited by Toeplitz, Kronecker*, Diag, Triangular, Permutation, ...): unless both matrix
+   indices are noop slices, it builds  InterpolatedLinearOperator(self, arange(m)[:, None], 1, arange(n)[:, None], 1)  and calls its
+   _getitem: the base becomes  self._getitem(:, :, *batch)  (batch-only indexing: every component tensor indexed with the batch
+   indices) and the unit-weight interpolation indices arange(m)[batch.., row] / arange(n)[batch.., col] select rows and columns of
+   it, i.e. the batch-indexed operator indexed with full batch slices and (row, col).  g_batch_only is the class's batch-only _getitem. *)
+Definition default_getitem (g_batch_only : list item -> option tensor) (its : list item) : option tensor :=
+  match g_batch_only (ibatch its ++ [full; full]) with
+  | None => None
+  | Some t' => torch_index_norm t' (repeat full (length (tshape t') - 2) ++ [irow its; icol its])
+  end.
+
+(* RootLinearOperator._getitem (also Chol, LowRankRoot): Root(root._getitem(row, :, *batch)) when row == col, else
+   Matmul(root._getitem(row, :, *batch), root._getitem(col, :, *batch).mT) — in both branches the dense result is  l @ r^T *)
+Definition tmatmul_nt (a b : tensor) : option tensor :=
+  let sa := tshape a in let sb := tshape b in
+  let bs := firstn (length sa - 2) sa in
+  let m := nth (length sa - 2) sa 0%nat in let k := nth (length sa - 1) sa 0%nat in let n := nth (length sb - 2) sb 0%nat in
+  if lnat_eqb' sb (bs ++ [n; k]) && (2 <=? length sa)%nat
+  then Some (tab (bs ++ [m; n]) (fun x => zsum_upto k (fun q => tget a (cb x ++ [cr x; Z.to_nat q]) * tget b (cb x ++ [cc x; Z.to_nat q]))))
+  else None.
+Definition root_getitem (g : list item -> option tensor) (its : list item) : option tensor :=
+  match g (ibatch its ++ [irow its; full]), g (ibatch its ++ [icol its; full]) with
+  | Some l, Some r => tmatmul_nt l r | _, _ => None end.
